@@ -44,7 +44,7 @@ fn query_with(n: u8) -> IterativeQuery {
 fn c07_o1_closest_candidates() {
     clock::set(0);
     let mut q = query_with(22);
-    let bits: [bool; 5] = kani::any();
+    let bits: [bool; 5] = [kani::any(), kani::any(), kani::any(), kani::any(), kani::any()];
     let idx = [0u8, 10, 19, 20, 21];
     let mut k = 0;
     while k < 5 {
